@@ -24,6 +24,11 @@ def _same(a, b, depth=0):
     if depth > 4:
         return True
     if type(a) is not type(b):
+        # a bound method stored in an object: native `method` vs the interpreter's BoundMethod of the same function
+        fa = getattr(a, '__func__', None)
+        fb = getattr(b, '__func__', None)
+        if fa is not None and fa is fb and {type(a).__name__, type(b).__name__} == {'method', 'BoundMethod'}:
+            return True
         return type(a).__name__ == type(b).__name__ and type(a).__name__.startswith('Stub_')
     if type(a).__name__ in ('_Anything',) or type(a).__name__.startswith('Stub_'):
         return True
